@@ -110,7 +110,11 @@ macro_rules! logint_job {
             let f = p.integral(Knot { x: kx, y: ky });
             let mut v = ind.nums();
             v.extend(f.nums());
-            v.extend([f.evaluate(kx), f.evaluate(a), f.evaluate(b), ind.evaluate(a), ind.evaluate(b)]);
+            // (the two antiderivatives are evaluated at the same point back to back: consecutive calls with one argument)
+            let fk = f.evaluate(kx);
+            let (fa, ia) = (f.evaluate(a), ind.evaluate(a));
+            let (fb, ib) = (f.evaluate(b), ind.evaluate(b));
+            v.extend([fk, fa, fb, ia, ib]);
             v
         }) as ppv::conc::Job);
         $meta.push(CJob09 { deg: $deg, c, kx, ky, a, b, cc });
@@ -134,7 +138,7 @@ fn concurrent09(a: &Args, m: &mut Mon, sink: &mut Sink) {
         logint_job!(&mut r, Poly7, 7, jobs, meta);
         logint_job!(&mut r, Poly8, 8, jobs, meta);
     }
-    match ppv::conc::run(&jobs, 4, if a.thorough() { 300 } else { 60 }, 4) {
+    match ppv::conc::run(&jobs, 4, if a.thorough() { 400 } else { 150 }, 4) {
         Err(pn) => m.panic("log integral panic (concurrent lane)", &pn, || json!({"lane": "concurrent"})),
         Ok((res, st)) => {
             m.add("concurrent_calls", st.calls);
@@ -169,7 +173,7 @@ fn concurrent10(a: &Args, m: &mut Mon, sink: &mut Sink, lo_sw: f64, hi_sw: f64) 
         jobs.push(Box::new(move || vec![q.evaluate(v)]));
         meta.push((form, v, fc, vc));
     }
-    match ppv::conc::run(&jobs, 4, if a.thorough() { 300 } else { 60 }, 4) {
+    match ppv::conc::run(&jobs, 4, if a.thorough() { 400 } else { 150 }, 4) {
         Err(pn) => m.panic("IntOfLogPoly4::evaluate panic (concurrent lane)", &pn, || json!({"lane": "concurrent"})),
         Ok((res, st)) => {
             m.add("concurrent_calls", st.calls);
